@@ -361,7 +361,11 @@ func scenarioC14(c *Ctx) {
 			}
 			c.Case("labels", true, "rmwlabels", "rmwlabels request="+lab("0:")+" poller="+lab("1:"))
 		}
-		for _, sc := range boundedSchedules(na, nb, switches) {
+		sw := switches
+		if c.Quick() && (p.reinit || strings.Contains(p.name, "round B")) {
+			sw = 1 // quick: one pre-emption (the pre-empting side runs to its end) for the pairs added last
+		}
+		for _, sc := range boundedSchedules(na, nb, sw) {
 			snap, tr := execute(sc, 0)
 			explored++
 			if p.model {
